@@ -165,8 +165,8 @@ def step (st : St) (line : String) : St × String :=
        | none => (pushSlot st1 none, "ptr 0")
        | some jv =>
          let base := st1.heap.cells.length
-         let (ops, root, _) := buildOps jv base
-         let (h, _) := st1.heap.run true st1.cyc (ops ++ [.seal (some root)])
+         let root := (buildOps jv base).2.1
+         let (h, _) := st1.heap.run true st1.cyc (loadOps jv base)
          (pushSlot { st1 with heap := h } (some root), "ptr 1"))
     | _, _ => (st, "bad-op")
   | kind :: args =>
